@@ -282,8 +282,11 @@ def targets(ctx):
         fails = [Failure(cl, f"plugin_def|{cl}|{case['plugin_enum']}", d) for cl, d in found]
         return Eval(fails, nontrivial=True, labels=["plugin_def"])
 
+    from . import _seq
+
     return [
         Target("plugin_enum_definitions", plugin_def_ev, cases=corpus_defs, exhaustive=True, shard_cases=False),
         Target("enum_definitions", def_ev, strategy=def_strat(), quick=400, thorough=5000),
         Target("enum_field_positions", pos_ev, strategy=pos_strat(), quick=500, thorough=6000),
+        _seq.target("C20"),
     ]
